@@ -19,14 +19,14 @@ const module = "github.com/ucan-wg/go-ucan"
 
 // Term is a finite tree describing where an SSA value comes from.
 type Term struct {
-	Op   string
-	Name string
-	Args []*Term
-	Val  ssa.Value // a representative SSA value (for positions); may be nil
-	Bind []*Term   // for calls of closures: the closure's bindings (free variables), not rendered
-	Names []string // for struct values: the field names of Args
-	Env   *Ctx     // for closures: the activation that created the closure
-	str  string
+	Op    string
+	Name  string
+	Args  []*Term
+	Val   ssa.Value // a representative SSA value (for positions); may be nil
+	Bind  []*Term   // for calls of closures: the closure's bindings (free variables), not rendered
+	Names []string  // for struct values: the field names of Args
+	Env   *Ctx      // for closures: the activation that created the closure
+	str   string
 }
 
 func mk(op, name string, v ssa.Value, args ...*Term) *Term {
